@@ -6,6 +6,7 @@ package main
 
 import (
 	"go/token"
+	"go/types"
 	"strings"
 
 	"golang.org/x/tools/go/ssa"
@@ -209,6 +210,13 @@ func (c *Ctx) armCalls(dv *dispatchView, a *arm) []armCall {
 				out = append(out, armCall{callee: g, call: cl, args: render(declArgs(cl), nil)})
 			}
 		}
+		// the arm only picks the handler function (a function variable assigned per case, possibly in the empty block
+		// the case jumps through); it is called once, after the switch, through the value that merges the arms
+		for _, pc := range phiPickedCalls(a.blk) {
+			if fn := funcValueOf(pc.picked); fn != nil {
+				out = append(out, armCall{callee: fn, call: pc.call, args: render(pc.call.Call.Args, nil)})
+			}
+		}
 		// the arm only picks the handler object (an interface variable assigned per case); the method is invoked once,
 		// after the switch, on the value that merges the arms
 		for _, in := range a.blk.Instrs {
@@ -295,4 +303,41 @@ func (c *Ctx) tableGuards(dv *dispatchView) (foundOnly, callRequired bool) {
 	}
 	callRequired, _, _ = c.Guard(dv.f, nil, &GCheck{Name: "handler call succeeded", NoDescend: true, MatchCall: func(c *Ctx, call *ssa.Call, env Env) bool { return call == dv.site }}, nil)
 	return
+}
+
+type pickedCall struct {
+	picked ssa.Value // the function value the arm selects
+	call   *ssa.Call // the call through the φ that merges the arms
+}
+
+// phiPickedCalls: function values (closures made in blk, or named functions) that flow from blk into a φ of function
+// type which is then called.
+func phiPickedCalls(blk *ssa.BasicBlock) []pickedCall {
+	var out []pickedCall
+	for _, s := range blk.Succs {
+		for _, in := range s.Instrs {
+			phi, ok := in.(*ssa.Phi)
+			if !ok {
+				break
+			}
+			if _, isSig := phi.Type().Underlying().(*types.Signature); !isSig || phi.Referrers() == nil {
+				continue
+			}
+			for i, p := range s.Preds {
+				if p != blk {
+					continue
+				}
+				v := phi.Edges[i]
+				if k, isK := v.(*ssa.Const); isK && k.IsNil() {
+					continue
+				}
+				for _, rr := range *phi.Referrers() {
+					if cl, isC := rr.(*ssa.Call); isC && !cl.Call.IsInvoke() && cl.Call.Value == ssa.Value(phi) {
+						out = append(out, pickedCall{picked: v, call: cl})
+					}
+				}
+			}
+		}
+	}
+	return out
 }
